@@ -370,8 +370,8 @@ func init() {
 			{Name: "lists", N: func(c *Ctx) int { return len(c04Members) + len(c04NonMembers) }, Run: c04Lists, Exhaustive: true},
 			{Name: "whitespace", Setup: c04Setup, N: c04BaseN, Run: c04Whitespace, Exhaustive: true},
 			{Name: "edits", Setup: c04Setup, N: func(c *Ctx) int { return c04BaseN(c) }, Run: c04Edits, Exhaustive: true},
-			{Name: "generated", N: func(c *Ctx) int { return tierN(c, 30000, 2000000) }, Run: c04Generated},
-			{Name: "json", N: func(c *Ctx) int { return tierN(c, 20000, 1500000) }, Run: c04JSON},
+			{Name: "generated", N: func(c *Ctx) int { return tierN(c, 30000, 6000000) }, Run: c04Generated},
+			{Name: "json", N: func(c *Ctx) int { return tierN(c, 20000, 5000000) }, Run: c04JSON},
 			{Name: "json-number-text", N: c04NumN, Run: c04NumText, Exhaustive: true},
 		},
 	})
